@@ -21,7 +21,7 @@
    named at the theorems; time tags: C10_timetag_... (model, calendar, fraction). *)
 From Coq Require Import List ZArith.
 From RtoscV Require Import Pretty.Tok Pretty.FloatFmt Pretty.PrintModel Pretty.ScanModel
-  Pretty.PrettyProofs Pretty.FloatProofs Pretty.SymBlobProofs Pretty.RangeProofs Pretty.RunProofs Pretty.ListProofs Pretty.ArrayProofs Pretty.MixedProofs Pretty.MixedPrint Pretty.TotalProofs Pretty.TimeFmt Pretty.TimeProofs Pretty.PrettyRegress.
+  Pretty.PrettyProofs Pretty.FloatProofs Pretty.SymBlobProofs Pretty.RangeProofs Pretty.RunProofs Pretty.ListProofs Pretty.ArrayProofs Pretty.MixedProofs Pretty.MixedPrint Pretty.TotalProofs Pretty.TimeFmt Pretty.TimeProofs Pretty.TimeTokProofs Pretty.PrettyRegress.
 Import ListNotations.
 Local Open Scope Z_scope.
 
@@ -330,8 +330,11 @@ Proof. exact float_list_example. Qed.
      and one above 0xffffff7f becomes "0x1p+0", which the checker rejects:
      outside the quantifier, see notes/C10.md;
    - so the value of a time tag is rebuilt from what the printer writes.
-   NOT proved: that the recognisers read the printed TEXT of a time tag back for
-   every time tag (shown for the examples below by computation, and tied). *)
+   Text level: C10_timetag_token_whole_seconds - the scanner's date branch reads the
+   printed text of EVERY time tag of whole seconds (all three strftime formats)
+   back to that time tag and stops behind it.  NOT proved: the same for a time tag
+   with a fraction (".dd (...+0x1p-1s)") and for the checker's skip_date (shown for
+   the examples below by computation, and tied). *)
 Theorem C10_timetag_calendar : forall s, 0 <= s < 2 ^ 32 ->
   let '(y, mo, d, h, mi, se) := date_of_secs s in
   secs_of_date y mo d h mi se = s /\
@@ -348,6 +351,17 @@ Theorem C10_timetag_value_partial : forall t, 0 <= t < 2 ^ 64 ->
   exists sf', (if sf =? 0 then Some 0 else float2secfracs (secfracs2float sf)) = Some sf' /\
               secs_of_date y mo d h mi se mod 2 ^ 32 * 2 ^ 32 + sf' mod 2 ^ 32 = t.
 Proof. exact timetag_value_roundtrip. Qed.
+
+Theorem C10_timetag_token_whole_seconds : forall (dec2f : list Z -> Z) o secs rest,
+  0 <= secs < 2 ^ 32 -> tt_rest_ok rest ->
+  scan_date dec2f (print_timetag o (secs * 2 ^ 32) ++ rest) = Ok ([VTm (secs * 2 ^ 32)], rest).
+Proof. exact timetag_token_whole_seconds. Qed.
+
+(* what may follow the token: the end of the text, a following value, a closing
+   bracket, an ellipsis *)
+Theorem C10_timetag_token_nonvacuous :
+  tt_rest_ok [] /\ tt_rest_ok [32; 49; 50] /\ tt_rest_ok [93] /\ tt_rest_ok [32; 46; 46; 46; 32].
+Proof. exact tt_rest_ok_examples. Qed.
 
 (* immediately, 2016-11-14, 2016-11-14 17:26, 2016-11-14 17:26:30,
    2016-11-14 17:26:30.50 (...+0x1p-1s), 2106-02-07 06:28:15.00 (...+0x1.8p-23s), 12 *)
